@@ -142,7 +142,10 @@ def _gc(factsdir, keep, maxdirs=6):
         ds = [d for d in os.listdir(factsdir) if d != keep and os.path.isdir(os.path.join(factsdir, d))]
         ds.sort(key=lambda d: os.path.getmtime(os.path.join(factsdir, d)))
         import shutil
+        now = time.time()
         for d in ds[:-maxdirs] if len(ds) > maxdirs else []:
+            # never remove a directory another (parallel) check may still be writing or reading
+            if now - os.path.getmtime(os.path.join(factsdir, d)) < 45 * 60: continue
             shutil.rmtree(os.path.join(factsdir, d), ignore_errors=True)
     except OSError:
         pass
